@@ -38,6 +38,7 @@ inch = 2 * ua
 foot = 12 * inch = ft
 mile = 5280 * foot
 pound = 500 * gram = lb
+deg = 2 * ua; offset: 7
 @context(n=1) A = Ax
     [A] -> [B]: value * 3 * n * ub / ua
 @end
@@ -51,6 +52,12 @@ pound = 500 * gram = lb
 @context RB
     [A] -> [B]: value * 11 * ub / ua
     inch = 3 * ua
+@end
+@context K
+    pound = 250 * gram; offset: 10
+@end
+@context K2
+    deg = 3 * ua
 @end
 @context BAD
     foot = 3 * ub
@@ -111,19 +118,23 @@ EVENTS = [
     ("enable", ["A"], {}), ("enable", ["A"], {"n": 2}), ("enable", ["Ax"], {"n": 5}), ("enable", ["B"], {}), ("enable", ["R"], {}), ("enable", ["RB"], {}),
     ("enable", ["A", "R"], {}), ("enable", ["R", "RB"], {}), ("enable", ["SH"], {}),
     ("enable", ["@X1"], {}), ("enable", ["@X2"], {}),
+    # contexts whose redefinition changes the KIND of a unit: scaled -> offset (K), offset -> scaled (K2)
+    ("enable", ["K"], {}), ("enable", ["K2"], {}), ("with", ["K2", "K"], {}),
     # a keyword value that cannot be part of a cache key (a list): the activation of a redefining context fails on it
     ("enable", ["R"], {"n": "@list"}), ("with", ["RB"], {"n": "@list"}), ("enable", ["A", "R"], {"n": "@list"}),
     ("to", ["A"], {"n": 7}),
     # a function decorated with ureg.with_context: its contexts are active during the call only — also when their
     # activation fails, whatever the caller has active
     ("deco", ["R"], {}), ("deco", ["A"], {"n": 4}), ("deco", ["BAD"], {}), ("deco", ["NOSUCH"], {}),
+    # ... and when the decorated function itself raises
+    ("deco-raise", ["R"], {}), ("deco-raise", ["A"], {"n": 4}), ("deco-raise", ["RB"], {}),
     ("disable", 1), ("disable", None),
     ("with", ["R"], {}), ("with", ["A"], {"n": 3}), ("with", ["RB", "B"], {}),
     ("exit",), ("raise",), ("raise", "KeyboardInterrupt"), ("raise", "GeneratorExit"),
     ("enable", ["BAD"], {}), ("enable", ["BAD2"], {}), ("enable", ["R", "BAD2"], {}), ("enable", ["NOSUCH"], {}),
     ("fault", ["R"], "redefine", 0), ("fault", ["RB"], "redefine", 0), ("fault", ["R", "RB"], "redefine", 1), ("fault", ["A"], "switch", 0), ("fault", ["RB"], "define", 0),
     ("define", "newu = 4 * ua"),
-    ("q", "base"), ("q", "conv"),
+    ("q", "base"), ("q", "conv"), ("q", "kinds"),
 ]
 FAILING = {"BAD", "BAD2", "NOSUCH"}
 
@@ -172,6 +183,8 @@ def probes(reg):
     out["base(mile,fsys)"] = call(lambda: [fr(reg.get_base_units("mile", system="fsys")[0]), sorted(dict(reg.get_base_units("mile", system="fsys")[1]._units))])
     out["to_base(mile)"] = call(lambda: fr(Q(1, "mile").to_base_units().magnitude))
     out["pound->g"] = call(lambda: fr(Q(1, "pound").to("gram").magnitude))
+    out["deg->ua"] = call(lambda: fr(Q(1, "deg").to("ua").magnitude))
+    out["g->pound"] = call(lambda: fr(Q(510, "gram").to("pound").magnitude))
     out["compat(ua)"] = call(lambda: sorted(next(iter(u._units)) for u in reg.get_compatible_units("ua", "root")))
     out["kilofoot->ua"] = call(lambda: fr(Q(1, "kilofoot").to("ua").magnitude))
     out["parse(kft)"] = call(lambda: sorted(dict(reg.parse_units("kft")._units)))
@@ -240,6 +253,14 @@ class CtxDriver(explore.Driver):
         if kind == "to":
             names, kw = list(ev[1]), dict(ev[2])
             return call(lambda: fr(reg.Quantity(1, "ua").to("ub", *names, **kw).magnitude))
+        if kind == "deco-raise":
+            names, kw = list(ev[1]), dict(ev[2])
+
+            def rbody():
+                raise RuntimeError("raised inside the decorated function")
+
+            o = call(lambda: reg.with_context(*names, **kw)(rbody)())
+            return o
         if kind == "deco":
             names, kw = list(ev[1]), dict(ev[2])
 
@@ -303,6 +324,8 @@ class CtxDriver(explore.Driver):
         if kind == "q":
             if ev[1] == "base":
                 return call(lambda: fr(reg.get_base_units("mile")[0]))
+            if ev[1] == "kinds":
+                return call(lambda: [fr(reg.Quantity(1, "pound").to("gram").magnitude), fr(reg.Quantity(1, "deg").to("ua").magnitude)])
             return call(lambda: fr(reg.convert(1, "foot", "ua")))
         raise core.HarnessError(ev)
 
@@ -365,6 +388,8 @@ class CtxDriver(explore.Driver):
             want = ["ok", sorted(reg._contexts[n].name for n in last[1])]
             if outs[-1] != want:
                 acc.violation(["decorator", "with_context", "contexts-not-active-inside-the-decorated-call", ""], {"history": [list(e) for e in hist], "outcomes": outs}, want, outs[-1])
+        if last[0] == "deco-raise" and outs[-1][:2] != ["exc", "RuntimeError"] and tuple(outs[-1][:2]) != ("exc", "RuntimeError"):
+            acc.violation(["decorator", "with_context", "exception-of-the-decorated-function-not-propagated", ""], {"history": [list(e) for e in hist], "outcomes": outs}, "RuntimeError", outs[-1])
         if is_failing(last) and outs[-1][0] == "ok" and outs[-1] != ["ok", "fault-not-reached"]:
             acc.violation(["atomicity", "enable_contexts", "failing-activation-did-not-raise", "failing-" + last[0]], {"history": [list(e) for e in hist], "outcomes": outs}, "an exception", outs[-1])
 
